@@ -289,6 +289,11 @@ func (x *parserExec) doWrite(op POp) {
 	if !bytesEqual(p, op.Data) {
 		x.report("C15", "Write modified the caller's slice")
 	}
+	// The slice is the caller's again: whatever is written into it now must
+	// not show up in the parser (Write copies).
+	for i := range p {
+		p[i] = 0xee
+	}
 	if n != wantN || err != wantErr {
 		x.report("C15", "Write(%d bytes) with %d of %d bytes buffered = (%d, %s); want (%d, %s)",
 			len(op.Data), x.buffered(), x.cc.BufferSize, n, errName(err), wantN, errName(wantErr))
